@@ -85,3 +85,20 @@ Theorem C07_pruned_operator_value : forall o tol fo t L x, osound o x -> bin2 L 
 Proof. exact ops_pruned_value. Qed.
 Print Assumptions C07_pruned_operator_terminal.
 Print Assumptions C07_pruned_operator_value.
+
+(* ---- the region of one edge for ANY branching factor (the path conditions the pruning operators test; /repo computes
+   them per row since the repair of D20): an input that takes the edge lies in the closed region of the edge, so an
+   edge whose region is empty is taken by no input; an input strictly inside the region of an edge takes that edge ---- *)
+From AT Require Import EdgeRegion.
+Theorem C07_edge_region_sound : forall p x, length (a_bias p) = length (a_mat p) ->
+  in_rows (label_rows p (decide p x)) x.
+Proof. exact takes_edge_in_region. Qed.
+Theorem C07_edge_region_interior : forall p l x, length (a_bias p) = length (a_mat p) -> (l < 2 ^ length (a_mat p))%nat ->
+  strictly_in (label_rows p l) x -> decide p x = l.
+Proof. exact strictly_inside_takes_edge. Qed.
+Theorem C07_edge_region_binary : forall p r b, a_mat p = [r] -> a_bias p = [b] ->
+  label_rows p 0 = [row0 p] /\ label_rows p 1 = [row1 p].
+Proof. exact label_rows_binary. Qed.
+Print Assumptions C07_edge_region_sound.
+Print Assumptions C07_edge_region_interior.
+Print Assumptions C07_edge_region_binary.
